@@ -44,6 +44,22 @@ def setup_worker(rec, ctx):
     pass
 
 
+def _spinful_spectator(reaction) -> bool:
+    """Some topology's first node has a final-state child (the spectator of that chain) with spin > 0."""
+    seen = set()
+    for t in reaction.transitions:
+        top = t.topology
+        if top in seen:
+            continue
+        seen.add(top)
+        init = next(iter(top.incoming_edge_ids))
+        node0 = top.edges[init].ending_node_id
+        for c in top.get_edge_ids_outgoing_from_node(node0):
+            if top.edges[c].ending_node_id is None and t.states[c].particle.spin > 0:
+                return True
+    return False
+
+
 def opposite_helicity_decaying_child(reaction) -> bool:
     """Structural predicate: some node's only decaying child is the opposite-helicity state."""
     from vmon.workloads.reactions import node_children, topologies_of
@@ -133,7 +149,9 @@ def run_case(case, rec, ctx):
     feats = {"n_topologies": len(tops), "spinless_final_state": spinless_final, "align": cfg["align"].rstrip("123"),
              "multi_topology_with_opposite_helicity_decaying_child": len(tops) >= 2 and opposite_helicity_decaying_child(reaction),
              **R.massless_alignment_features(reaction, cfg["align"]),
-             "dpd_multi_topology_with_initial_spin": cfg["align"].startswith("dpd") and len(tops) >= 2 and any(p.spin > 0 for p in reaction.initial_state.values()),
+             # an isobar can carry helicity != 0 iff the initial state has spin or the isobar recoils against a spinful spectator
+             "dpd_multi_topology_with_isobar_helicity": cfg["align"].startswith("dpd") and len(tops) >= 2 and (
+                 any(p.spin > 0 for p in reaction.initial_state.values()) or _spinful_spectator(reaction)),
              "multi_topology_axisangle_half_integer_spin": cfg["align"] == "axisangle" and len(tops) >= 2 and any(
                  float(p.spin) % 1 for p in list(reaction.final_state.values()) + list(reaction.initial_state.values())),
              "identical_spinful_particles": any(list(p.name for p in reaction.final_state.values()).count(q.name) > 1 and q.spin > 0 for q in reaction.final_state.values()),
